@@ -12,7 +12,8 @@ Inductive xtok :=
 | XO (name attrs : list N)     (* <name attrs>   ; attrs is empty or starts with a blank *)
 | XC (name : list N)           (* </name>        *)
 | XE (name : list N)           (* <name/>        *)
-| XT (text : list N).          (* character data *)
+| XT (text : list N)           (* character data *)
+| XR (name : list N).          (* &name;  (entity reference) *)
 
 Definition xrender1 (t : xtok) : list N :=
   match t with
@@ -20,6 +21,7 @@ Definition xrender1 (t : xtok) : list N :=
   | XC n => [60; 47] ++ n ++ [62]
   | XE n => [60] ++ n ++ [47; 62]
   | XT s => s
+  | XR n => [38] ++ n ++ [59]
   end.
 Definition xrender (l : list xtok) : list N := flat_map xrender1 l.
 
@@ -71,6 +73,13 @@ Definition x_times : list N := Eval compute in bs "times".
 Definition x_true : list N := Eval compute in bs "true".
 Definition x_union : list N := Eval compute in bs "union".
 Definition x_xor : list N := Eval compute in bs "xor".
+
+(* xml_escape (mathml.cpp): & < > become entity references *)
+Definition x_gt : list N := Eval compute in bs "gt".
+Definition x_amp : list N := Eval compute in bs "amp".
+Definition xml_escape (name : list N) : list xtok :=
+  List.map (fun c => if c =? 38 then XR x_amp else if c =? 60 then XR x_lt else if c =? 62 then XR x_gt
+                     else XT [c]) name.
 
 (* <apply><op/> ... </apply> *)
 Definition x_app (op : list N) (body : list xtok) : list xtok :=
@@ -190,7 +199,7 @@ Section WithRec.
   Definition mm_node (e : expr) : res (list xtok) :=
     match e with
     | ENum n => mm_number n
-    | ESym nm | EDummy nm _ => Ok [XO x_ci []; XT nm; XC x_ci]
+    | ESym nm | EDummy nm _ => Ok ([XO x_ci []] ++ xml_escape nm ++ [XC x_ci])
     | EConst nm => mm_constant nm
     | EAdd c d => mm_add c d
     | EMul c d => mm_mul c d
@@ -242,7 +251,7 @@ Section WithRec.
         else mm_function code l
     | EFunSym nm l =>
         match mm_list l with
-        | Ok b => Ok ([XO x_apply []; XO x_ci []; XT nm; XC x_ci] ++ b ++ [XC x_apply])
+        | Ok b => Ok ([XO x_apply []; XO x_ci []] ++ xml_escape nm ++ [XC x_ci] ++ b ++ [XC x_apply])
         | e => e
         end
     | ELex code a c =>
